@@ -8,7 +8,9 @@ PROP = {
     "theorems": ["Gnmi.C03." + t for t in [
         "withheld_only_if", "atomic_unit", "delete_events", "delete_event_path",
         "dispatch_single_upd", "dispatch_single_del", "multiUpdates_round",
-        "feed_simulation", "history_never_panics", "feed_replay_exact", "feed_replay_values", "feed_replay_same_when_differs"]] + [
+        "feed_simulation", "history_never_panics", "feed_replay_exact", "feed_replay_values", "feed_replay_same_when_differs",
+        "cache_feed_simulation_from", "cache_feed_simulation", "cache_replay_exact", "cache_replay_unknown_empty"]] + [
+        "Gnmi.Feed.step_ssim", "Gnmi.Feed.reset_sim", "Gnmi.Feed.updateMeta_sim", "Gnmi.Feed.updateMetadata_ssim",
         "Gnmi.Feed.gnmiUpdate_sim", "Gnmi.Feed.dispatch_sim", "Gnmi.Feed.GT.delete", "Gnmi.Feed.GT.set", "Gnmi.Feed.GT.suppress",
         "Gnmi.Feed.valueEqual_trans"],
     "components": [ca_component("", 2000, 30000)],
@@ -32,9 +34,14 @@ PROP = {
                       "prefix; no update index element literally '*'; origin carried in the prefix. The model is tied to the code by the ca "
                       "correspondence (aliasing generators: shared prefix objects, re-sent notification objects) and, independently of the model, by a "
                       "replay monitor in the harness that applies the real feed to a view and compares it with Cache.Query at every quiescent point. "
-                      "Target.Reset / Cache.Remove / periodic metadata refresh events are covered by the monitor and C14's theorems, not by feed_simulation.",
-        "level_note": "Trusted: Lean kernel; model validated by the ca correspondence; harness replay monitor; Go runtime. The simulation theorem covers "
-                      "histories of Target.GnmiUpdate; Reset/Remove/metadata-refresh events are checked by the monitor only.",
+                      "Whole cache: cache_feed_simulation — over every history of API calls (Add of a fresh name, Remove, Reset, Sync, Connect, ConnectError, "
+                      "GnmiUpdate of any shape, periodic UpdateMetadata) on any number of targets, routing each event to the view of the target it names, "
+                      "every registered target's view follows its tree and every unknown/removed target's view is empty (cache_replay_exact, "
+                      "cache_replay_unknown_empty). Extra explicit hypotheses there: Add only under a fresh non-empty name (Cache.Add on a registered "
+                      "name silently replaces the target: the feed is not told), first index element not the empty string (Reset announces a top-level "
+                      "subtree r as origin r / path *, which for r = \"\" reads as everything).",
+        "level_note": "Trusted: Lean kernel; model validated by the ca correspondence; harness replay monitor; Go runtime. The simulation theorems cover "
+                      "every cache API call of the model; what they assume of the input (Clean, fresh Add) is listed in DESIGN.md and enforced by the generators.",
         "technique": "Lean 4 proof (simulation between the cache model and a feed-replaying view, by induction over histories) + model/implementation "
                      "correspondence with aliasing generators + model-independent feed-replay monitor",
     },
